@@ -14,7 +14,7 @@ def ints(x, ok, scale=1.0):
     return r.astype(np.int64).tolist()
 
 
-def predict_case(cid, rng, big):
+def predict_case(cid, rng, big, edited=False):
     from pybrops.model.gmod.DenseAdditiveLinearGenomicModel import DenseAdditiveLinearGenomicModel as ADD
     from pybrops.model.gmod.DenseAdditiveDominanceLinearGenomicModel import DenseAdditiveDominanceLinearGenomicModel as DOM
     from pybrops.popgen.gmat.DensePhasedGenotypeMatrix import DensePhasedGenotypeMatrix
@@ -40,9 +40,21 @@ def predict_case(cid, rng, big):
          "b": [int(x) for x in bstar], "dom": dom, "q": q, "err": None}
     try:
         with time_limit(60), np.errstate(all="ignore"):
-            model = DOM(beta=beta, u_misc=None, u_a=u, u_d=d, trait=trait) if dom else ADD(beta=beta, u_misc=None, u_a=u, trait=trait)
             pg = DensePhasedGenotypeMatrix(ph, taxa=taxa, taxa_grp=grp)
             ug = DenseGenotypeMatrix(Z.astype("int8"), taxa=taxa, taxa_grp=grp, ploidy=2)
+            if edited:
+                # the model is first built with other effects and USED (anything it memoises is now filled), then its
+                # effect arrays are overwritten in place with the values the case is about
+                u0 = u + 1.0; d0 = d - 1.0; b0 = beta + 3.0
+                model = DOM(beta=b0, u_misc=None, u_a=u0, u_d=d0, trait=trait) if dom else ADD(beta=b0, u_misc=None, u_a=u0, trait=trait)
+                X0 = np.tile(np.array([[1.0] + [1.0 / q] * (q - 1)]), (n, 1))
+                model.predict(X0, pg); model.gebv(pg); model.gegv(ug); model.score(np.zeros((n, T)), X0, pg); model.u; model.var_A(pg); model.usl(pg); model.facount(ug)
+                model.u_a[...] = u; model.beta[...] = beta
+                if dom:
+                    model.u_d[...] = d
+                c["edited"] = True
+            else:
+                model = DOM(beta=beta, u_misc=None, u_a=u, u_d=d, trait=trait) if dom else ADD(beta=beta, u_misc=None, u_a=u, trait=trait)
             ok = [True]
             outs = []
             for src in (pg, ug):
@@ -187,10 +199,12 @@ def run(ctx):
         allc.append(predict_case(len(allc) + 1, rng, big=False))
     for _ in range(200 if thorough else 60):
         allc.append(predict_case(len(allc) + 1, rng, big=True))
+    for _ in range(60 if thorough else 24):
+        allc.append(predict_case(len(allc) + 1, rng, big=rng.random() < 0.5, edited=True))
     for _ in range(60 if thorough else 20):
         allc.append(ridge_case(len(allc) + 1, rng))
     verd = cases.validate(ctx, "LinModel_Trace", "LinModel_Trace.cfg",
-                          [{k: v for k, v in c.items() if k not in ("float_checks", "dom", "q")} for c in allc],
+                          [{k: v for k, v in c.items() if k not in ("float_checks", "dom", "q", "edited")} for c in allc],
                           "LinModel_Trace", chunk=20, procs=14)
     ctx.traces += len(allc)
     for c in allc:
@@ -198,7 +212,8 @@ def run(ctx):
         ctx.count(1, repr((c["kind"], c["Z"], c.get("u"), c.get("y"))) if len(c["Z"]) >= 2 else None)
         site = ("DenseAdditiveDominanceLinearGenomicModel" if c.get("dom") else "DenseAdditiveLinearGenomicModel") if c["kind"] == "predict" else "rrBLUPModel0.fit_numpy"
         if v != "ok":
-            ctx.violation("%s:%s" % (site, v), "TLC verdict %s%s" % (v, " -- " + c["err"] if c["err"] else ""),
+            ctx.violation("%s:%s%s" % (site, v, ":after-in-place-edit-of-effects" if c.get("edited") else ""),
+                          "TLC verdict %s%s%s" % (v, " (model used, then beta/u_a/u_d overwritten in place)" if c.get("edited") else "", " -- " + c["err"] if c["err"] else ""),
                           {k: c[k] for k in c if k in ("Z", "u", "d", "b", "q", "y", "gebv", "gegv", "varA", "vara", "err", "uzero", "ymeanN")})
         for fc in c.get("float_checks", []):
             ctx.violation("%s:%s" % (site, fc.split(":")[0]), fc, {"Z": c["Z"], "y": c["y"]})
